@@ -242,6 +242,14 @@ theorem clear_clear : ∀ (s : Shape) (st : St s), clear s (clear s st) = clear 
         intro c _
         exact clear_clear e c
       exact key st
+  | .tsld e, st => by
+      have key : ∀ l : List (St e), List.map (clear e) (List.map (clear e) l) = List.map (clear e) l := by
+        intro l
+        rw [List.map_map]
+        apply List.map_congr_left
+        intro c _
+        exact clear_clear e c
+      exact key st
   | .tsb fs, st => clear_clear fs st
   | .bnil, _ => rfl
   | .bcons f r, st => Prod.ext (clear_clear f st.1) (clear_clear r st.2)
